@@ -100,7 +100,7 @@ class Site:
 
 def fn_display(f):
     """stable, human-readable function id used in keys: crate-qualified def path with impl self types"""
-    p = f["path"]
+    p = re.sub(r"_#\d+", "_", f["path"])
     if "{impl#" in p and f.get("self_ty"):
         st = short_ty(f["self_ty"])
         st = re.sub(r"<'[a-z_]+(, )?", "<", st).replace("<>", "")
@@ -111,6 +111,9 @@ def fn_display(f):
         if tr:
             return "%s::<%s as %s>::%s" % (mod, st, tr.split("::")[-1], tail)
         return "%s::<%s>::%s" % (mod, st, tail)
+    if "{impl#" in p:
+        # closures inside impl methods: name the impl by the parent's display where possible
+        return p
     return p
 
 
